@@ -284,7 +284,7 @@ def r4_serialization_coverage(ctx):
         if f.name == "serialize" and f.impl_trait and f.impl_trait.endswith("ser::Serialize") and f.impl_self_adt:
             ser_fns[f.impl_self_adt] = f
     roots = sorted({i["self_adt"] for i in F.impls if i["trait"] in ("mahf::components::Component", "mahf::conditions::Condition") and i["self_adt"]})
-    ctx.floor("C15.R4", "component and condition types", len(roots), 95)
+    ctx.floor("C15.R4", "component and condition types", len(roots), 85)
     import re
     work = list(roots)
     seen = set()
@@ -401,6 +401,6 @@ def r6_names_are_identifiers(ctx):
                 elif not ident.match(text):
                     ctx.violation("C15.R6", f.key, "name-argument:%s" % nm, "%s is given the name %r, which is not an identifier" % (nm, text), loc=f.loc(t.get("line")))
     ctx.count("serializer_name_arguments", n)
-    ctx.floor("C15.R6", "struct / variant names handed to serializers", n, 100)
+    ctx.floor("C15.R6", "struct / variant names handed to serializers", n, 80)
     if not any(r.get("rule") == "C15.R6" and r.get("verdict") == "violation" for r in ctx.results):
         ctx.ok("C15.R6", "crate", "names-are-identifiers", "%d name arguments" % n)
